@@ -1287,6 +1287,10 @@ func (x *Exec) convert(f *Frame, st *State, v Val, from, to types.Type) Val {
 			return x.wrapMod(App("to_int", SInt, t), to)
 		case fs == SInt && ts == SStr:
 			return UF("str_of_rune", SStr, t)
+		case fs == SCoins && isSliceSort(ts):
+			return UF("slice_of_coins", ts, t)
+		case isSliceSort(fs) && ts == SCoins:
+			return UF("coins_of_slice", SCoins, t)
 		}
 	}
 	if ev, ok := v.(*EncVal); ok {
